@@ -200,12 +200,14 @@ Plan sloppy_generate(uint64_t base, const std::string &prop, uint64_t index, int
     p.faults.push_back("F8:faulty_caller");
     if (prop != "C16" && ro.chance(1, 5)) p.par["nocb"] = 1;      // an application without a token callback
     if (prop == "C16" && ro.chance(1, 2)) p.par["unguarded"] = 1;   // termination is promised for ANY call sequence, also lookups issued outside an object
+    if (ro.chance(1, 10)) p.par["locale"] = 1;
     if (getenv("VERIF_GUARD")) p.par["guard"] = 1;                 // delivered buffer ends at a PROT_NONE page (plain build cross-check of ASan)
     return p;
 }
 
 Result sloppy_execute(const Plan &p, const ExecCtx &c) {
     Result r;
+    LocaleScope locale_scope(p.P("locale") != 0);
     Trace tr; tr.verbose = c.verbose;
     Sink sink; sink.own = c.prop; sink.cnt = &r.cnt;
     PSession ps(tr, sink, r.cnt);
